@@ -1,37 +1,6 @@
+from propconf import CHECKS  # noqa: F401  (per-property MANIFEST entries live in tools/props/Cxx.py)
+
 HOOK_COMMITS = ["278b705"]
 
+# properties not claimed, with the reason (none planned: every property has an executable model)
 NOT_APPLICABLE = {}
-
-CHECKS = {
-    "C07": {
-        "text": "Theorems over all byte strings: the parser model succeeds iff the input is vendor/class=name in the grammar (parse_ok_iff, parse_err_iff), "
-                "never panics, honours the error contract, recomposes and round-trips (compose_parse, QN_unique). The model is tied to pkg/parser by "
-                "evaluating it inside Coq on every string up to length 3 (4 thorough) over a 12-symbol alphabet, on all 256 bytes at every position of "
-                "every part, and on random mutated names, against the real functions; an independent brute-force decision procedure for the grammar "
-                "(proved equivalent) is evaluated on the implementation's outputs as the oracle.",
-        "note": "Trusted: Coq kernel + vm_compute; the Go harness and its printer; byte-level modelling of Go's rune iteration (bytes >= 0x80 never are allowed "
-                "characters; swept). No axioms (Print Assumptions: closed under the global context).",
-        "technique": "Coq proof (induction over strings, 256-way byte case analysis) + differential correspondence model/implementation via vm_compute",
-    },
-    "C15": {
-        "text": "Theorems for all plugin names, device ids, device lists and maps: a returned key is under the CDI prefix and is a legal Kubernetes "
-                "annotation key (key_is_legal, via a model of the k8s qualified-name matcher), a non-empty value splits back to exactly the requested devices "
-                "(value_roundtrip), UpdateAnnotations is all-or-nothing, adds exactly one unused key and never overwrites (update_fail_unchanged, update_adds_one, "
-                "never_overwrites), ParseAnnotations returns exactly the CDI-prefixed entries and fails with empty results iff a device is unqualified "
-                "(parse_ok_iff, parse_unqualified_fails), update-then-parse round trip; nothing panics. Tied to pkg/cdi/annotations.go and to the real k8s matcher "
-                "(through the verif export hook) by evaluating the model in Coq on generated keys (lengths 58..67, every character class per position), values, maps.",
-        "note": "Trusted: Coq kernel + vm_compute; harness (grouping of ParseAnnotations' flat device list per key, sorting of maps); byte-level modelling of rune "
-                "iteration; the three k8s regular expressions are modelled by explicit matchers and corresponded. No axioms.",
-        "technique": "Coq proof (induction over strings/lists/association lists) + differential correspondence via vm_compute",
-    },
-    "C06": {
-        "text": "Theorems for all Specs: the modelled requiredVersion over the version table REGENERATED from specs-go/version.go equals the highest introduction "
-                "version among the features used anywhere (required_exact, each feature characterised by an existential over spec-level and every device's edits), "
-                "is invariant under every permutation of the devices (required_perm, validate_version_perm), and ValidateVersion succeeds iff the declared "
-                "version is released and not lower than the minimum (version_valid_iff); the generated table equals SPEC.md's and names only modelled predicates. "
-                "The hand-modelled predicate bodies are tied to the code by evaluating the model on every single feature x placement x rotation x released version, "
-                "feature subsets and odd declared version strings against MinimumRequiredVersion / ValidateVersion / cdi.ReadSpec.",
-        "note": "Trusted: Coq kernel + vm_compute; tools/gen_versions.py (regex translator); harness and Spec -> Gallina printer; semver modelled on vX.Y.Z only. No axioms.",
-        "technique": "Coq proof over a model whose version table is regenerated from source + differential correspondence via vm_compute",
-    },
-}
